@@ -191,6 +191,8 @@ def rule_c(ctx):
     ctx.ob("names-table-name", ok, "the model-name table receives the registered name", pushes)
     from . import c11
     c11.rule_f(ctx)
+    # error reports take the name from that table and from nowhere else (C11.c)
+    c11.rule_c(ctx)
     from . import c06
     c06.rule_d(ctx)
 
@@ -229,3 +231,11 @@ def rule_commit(ctx):
 
 
 RULES.append(("C16.f", "branch-commit: between the decision to perform an effect and the effect there is no way out", rule_commit))
+
+
+def rule_inventory(ctx):
+    from . import inventory
+    inventory.check(ctx, ["mailbox-address", "mailbox-recv", "mailbox-close"])
+
+
+RULES.append(("C16.g", "state-mutation inventory: no new sender-handle / close site on a model's mailbox (a sub-model's mailbox must stay open until it runs)", rule_inventory))
